@@ -11,7 +11,7 @@ def main():
     if sh("git diff --quiet", "/repo").returncode:
         print("repo dirty"); return 2
     props = ["C%02d" % i for i in range(1, 21)]
-    res = {}
+    res = json.load(open("/verif/benign/RESULTS.json")) if only and os.path.exists("/verif/benign/RESULTS.json") else {}
     bad = 0
     for p in sorted(glob.glob("/verif/benign/*.diff")):
         name = os.path.basename(p)[:-5]
@@ -21,7 +21,7 @@ def main():
             res[name] = "patch does not apply"; print(name, "DOES NOT APPLY"); continue
         res[name] = {}
         for c in props:
-            r = sh("./vcheck %s --tier quick" % c, "/verif")
+            r = sh("timeout 1500 ./vcheck %s --tier quick" % c, "/verif")
             res[name][c] = r.returncode
             if r.returncode:
                 bad += 1
